@@ -8,7 +8,7 @@ from typing import Dict, List, Optional, Set, Tuple
 
 from ..model import AnalysisError, FuncInfo, Repo, call_np, dotted, method_call, np_name, src, walk_no_nested
 from ..report import Ob, bad, note, ok, skip
-from ..symalg import Diag, Expm, Folder, Mat, Poly, Unfoldable, fold_spec, identity
+from ..symalg import Diag, Expm, Folder, Mat, Poly, Unfoldable, fold_spec, g_add, identity
 from . import rule
 
 ENUMS = {
@@ -425,6 +425,104 @@ def fold_function(repo: Repo, fi: FuncInfo, env: Dict[str, object], depth: int =
     raise Unfoldable("no return")
 
 
+def _paths(stmts, limit: int = 8):
+    """straight-line paths through a body with `if` statements: [(statements, [(test, truth)])]"""
+    out = [([], [])]
+    for s in stmts:
+        nxt = []
+        for body, conds in out:
+            if body and isinstance(body[-1], (ast.Return, ast.Raise)):
+                nxt.append((body, conds))
+                continue
+            if isinstance(s, ast.If):
+                for truth, blk in ((True, s.body), (False, s.orelse)):
+                    for b2, c2 in _paths(blk, limit):
+                        nxt.append((body + b2, conds + [(s.test, truth)] + c2))
+            else:
+                nxt.append((body + [s], conds))
+        out = nxt
+        if len(out) > limit:
+            raise Unfoldable("too many paths")
+    return out
+
+
+def _real_assumption(test: ast.AST, truth: bool, params) -> Optional[str]:
+    """the parameter a path condition declares real (a *type* predicate: it says nothing about the value's sign or size)"""
+    t = test
+    while isinstance(t, ast.UnaryOp) and isinstance(t.op, ast.Not):
+        t, truth = t.operand, not truth
+    if isinstance(t, ast.Call) and t.args and isinstance(t.args[0], ast.Name) and t.args[0].id in params:
+        n = np_name(t.func) or (t.func.id if isinstance(t.func, ast.Name) else "")
+        if n in ("iscomplexobj", "iscomplex") and not truth:
+            return t.args[0].id
+        if n in ("isrealobj", "isreal") and truth:
+            return t.args[0].id
+        if n == "isinstance" and len(t.args) == 2:
+            cls = src(t.args[1])
+            if cls == "complex" and not truth:
+                return t.args[0].id
+            if cls in ("float", "int", "(int, float)", "(float, int)") and truth:
+                return t.args[0].id
+    return None
+
+
+def _realify(v, names):
+    """the value under the assumption that the parameters `names` are real: conj(p) = p"""
+    from ..symalg import Expm, polar_normalise
+    if isinstance(v, Poly):
+        d = {}
+        for (r2, sy, tr, ex, w), c in v.t.items():
+            sy2: Dict[str, object] = {}
+            for n, pw in sy:
+                n2 = n[:-1] if n.endswith("*") and n[:-1] in names else n
+                sy2[n2] = sy2.get(n2, 0) + pw
+            m = (r2, tuple(sorted((k, x) for k, x in sy2.items() if x)), tr, ex, w)
+            d[m] = g_add(d.get(m, (Fraction(0), Fraction(0))), c)
+        return Poly({m: c for m, c in d.items() if c != (Fraction(0), Fraction(0))})
+    if isinstance(v, Expm):
+        return Expm(_realify(v.arg, names))
+    if isinstance(v, Diag):
+        return Diag(v.kind, tuple(_realify(x, names) for x in v.params))
+    if isinstance(v, Mat):
+        return Mat([[_realify(x, names) for x in r] for r in v.rows])
+    return v
+
+
+def fold_paths(repo: Repo, fi: FuncInfo, env: Dict[str, object]):
+    """[(real-assumed parameters, value-dependent?, value | Unfoldable)] – one entry per path of a constructor with `if`s"""
+    out = []
+    for body, conds in _paths(fi.body_wo_docstring()):
+        reals, dependent = set(), False
+        for t, truth in conds:
+            r = _real_assumption(t, truth, fi.params)
+            if r is None:
+                dependent = True
+            else:
+                reals.add(r)
+        f = _F(dict(env), make_hook(repo, 0))
+        val = None
+        try:
+            for s in body:
+                if isinstance(s, ast.Assign) and len(s.targets) == 1 and isinstance(s.targets[0], ast.Name):
+                    f.env[s.targets[0].id] = f.fold(s.value)
+                elif isinstance(s, ast.Return):
+                    val = f.fold(s.value)
+                    break
+                elif isinstance(s, ast.Raise):
+                    val = "raise"
+                    break
+                elif isinstance(s, ast.Expr) and isinstance(s.value, ast.Constant):
+                    continue
+                else:
+                    raise Unfoldable(f"statement {type(s).__name__} in {fi.qualname}")
+            if val is None:
+                raise Unfoldable("no return")
+        except Unfoldable as ex:
+            val = ex
+        out.append((reals, dependent, val, conds))
+    return out
+
+
 def _spec_env():
     env = {k: Poly.sym(k) for k in ("theta", "phi", "omega", "alpha", "zeta", "cutoff", "eta")}
     env.update({"A": Poly.word("A"), "Ad": Poly.word("†A"), "A0": Poly.word("A0"), "Ad0": Poly.word("†A0"), "A1": Poly.word("A1"), "Ad1": Poly.word("†A1")})
@@ -446,12 +544,44 @@ def defs(repo: Repo) -> List[Ob]:
         fi = repo.func(f"ops:{name}")
         env = {p: Poly.sym(p) for p in fi.params}
         props = P + (("C11",) if name in ("phase_operator", "annihilation_operator", "creation_operator") else ())
+        want = fold_spec_text(repo, spec)
+        if any(isinstance(s_, ast.If) for s_ in fi.body_wo_docstring()):
+            # a constructor with branches: every path is folded on its own; a path taken on a *type* test of a parameter (real / complex)
+            # is compared under that assumption, a path taken on a test of the parameter's value cannot be refuted by a differing form
+            try:
+                paths = fold_paths(repo, fi, env)
+            except Unfoldable as ex:
+                obs.append(skip("DEFS", fi, "definition", props, fi.node, f"constructor could not be folded ({ex}): ANALYSIS-INCOMPLETE for this operator"))
+                continue
+            verdicts = []
+            for reals, dependent, val, conds in paths:
+                cond_txt = " and ".join(("" if tr_ else "not ") + src(t_)[:40] for t_, tr_ in conds) or "always"
+                if val == "raise" and isinstance(val, str):
+                    verdicts.append(("ok", cond_txt, None))
+                elif isinstance(val, Unfoldable):
+                    verdicts.append(("undecided", cond_txt, str(val)))
+                elif _realify(val, reals) == _realify(want, reals):
+                    verdicts.append(("ok", cond_txt, None))
+                elif dependent:
+                    verdicts.append(("undecided", cond_txt, f"folds to {val!r:.120} on a path taken for particular parameter values"))
+                else:
+                    verdicts.append(("bad", cond_txt, f"{val!r:.160}"))
+            badv = [v for v in verdicts if v[0] == "bad"]
+            und = [v for v in verdicts if v[0] == "undecided"]
+            if badv:
+                obs.append(bad("DEFS", fi, "definition", props, fi.node, f"{name} on the path `{badv[0][1]}` folds to {badv[0][2]} which differs from its definition {spec}"
+                               + (" for a real parameter" if any(r_ for r_, _, _, _ in paths) else "")))
+            elif und:
+                obs.append(skip("DEFS", fi, "definition", props, fi.node, f"constructor could not be folded on the path `{und[0][1]}` ({und[0][2]}): ANALYSIS-INCOMPLETE for this operator"))
+            else:
+                n_ok += 1
+                obs.append(ok("DEFS", fi, "definition", props, fi.node, f"all {len(paths)} paths fold exactly to {spec}"))
+            continue
         try:
             got = fold_function(repo, fi, env)
         except Unfoldable as ex:
             obs.append(skip("DEFS", fi, "definition", props, fi.node, f"constructor could not be folded ({ex}): ANALYSIS-INCOMPLETE for this operator"))
             continue
-        want = fold_spec_text(repo, spec)
         if got == want:
             n_ok += 1
             obs.append(ok("DEFS", fi, "definition", props, fi.node, f"folds exactly to {spec}"))
